@@ -133,6 +133,8 @@ type Exec struct {
 	entryVars      map[string]TV
 	specPos        token.Pos
 	specErrors     []string
+	predFamilies   map[string][]string
+	predBridges    []predBridge
 	nq             int
 	recInProgress  map[string]bool
 	recKeys        map[string][]string
@@ -231,6 +233,14 @@ func (e *Exec) assume(st *State, f Term) {
 }
 
 // globalAxiom appends a premise that is relevant on every path.
+type predBridge struct {
+	from, to string
+	ndecl    int
+	text     string
+}
+
+func (e *Exec) nDecls() int { return len(e.decls) }
+
 func (e *Exec) globalAxiom(text string) {
 	e.syncCtx(e.ctxPC)
 	e.assumps = append(e.assumps, text)
@@ -353,6 +363,11 @@ func (e *Exec) oblige(st *State, kind, tag string, goal Term, desc string, p tok
 	e.counters[kind] = n + 1
 	name := fmt.Sprintf("%s/%s#%d", e.fn.Key, kind, n)
 	e.obligeNamed(st, name, kind, tag, goal, desc, p)
+	switch kind {
+	case "idx", "slice", "nil", "div", "make":
+		// execution continues only when the check passed (otherwise the program panics): one defect, one report
+		e.assume(st, goal)
+	}
 }
 
 func (e *Exec) obligeNamed(st *State, name, kind, tag string, goal Term, desc string, p token.Pos) {
@@ -640,6 +655,13 @@ func typeKey(t types.Type) string {
 	case *types.Named:
 		return namedName(x)
 	case *types.Basic:
+		// byte/uint8 and rune/int32 are identical types with two names: one memory each
+		switch x.Kind() {
+		case types.Uint8:
+			return "byte"
+		case types.Int32:
+			return "int32"
+		}
 		return x.Name()
 	case *types.Pointer:
 		return "p_" + typeKey(x.Elem())
